@@ -401,6 +401,72 @@ MatchObject(E, subj, i) ==
 MatchInfo(E, subj, i) ==
     Obj(ObjFromPairs(<< <<kMatch, Str(MatchText(subj, E.ms[i]))>>, <<kIndex, IntV(E.bi[i][1])>>, <<kGroups, GroupArr(subj, E.ms[i])>> >>))
 
+\* ---- extensions (C20): argument passing to registered Go functions ----
+\* An extension value is [t |-> "fn", k |-> "ext", ps |-> parameter type names, variadic |-> BOOLEAN,
+\*   uh |-> "none" | "undef0" (UndefinedHandler: first argument missing),
+\*   ch |-> "none" | "count0" | "count1" (EvalContextHandler: that many arguments supplied),
+\*   res |-> "echo" | "two" | "err" | "undef"].  The function reports what it received ("echo"),
+\* which makes the conversion relation E1 observable.
+
+OptBase(p) == CASE p = "OptionalFloat64" -> "float64" [] p = "OptionalInt" -> "int" [] p = "OptionalString" -> "string"
+                [] p = "OptionalBool" -> "bool" [] p = "OptionalValue" -> "value" [] OTHER -> ""
+IsOptParam(p) == OptBase(p) # ""
+sNil == <<110, 105, 108>>   sInvalid == <<105, 110, 118, 97, 108, 105, 100>>   sFn == <<102, 110>>   sBytes == <<98, 121, 116, 101, 115, 58>>
+
+\* E1: [ok, echo] - does `arg` fit parameter type p, and what does the function see
+RECURSIVE Convert(_, _)
+Convert(arg, p) ==
+    IF IsUndef(arg) THEN
+         (IF IsOptParam(p) THEN [ok |-> "yes", echo |-> Arr(<<Bool(FALSE)>>)]
+          ELSE IF p = "interface" THEN [ok |-> "yes", echo |-> Str(sNil)]
+          ELSE IF p = "value" THEN [ok |-> "yes", echo |-> Str(sInvalid)]
+          ELSE [ok |-> "no"])
+    ELSE IF IsOptParam(p) THEN
+         (LET C == Convert(arg, OptBase(p)) IN IF C.ok = "yes" THEN [ok |-> "yes", echo |-> Arr(<<Bool(TRUE), C.echo>>)] ELSE C)
+    ELSE IF IsNull(arg) THEN [ok |-> "open"]                                    \* JSON null as an argument: not addressed by the statement
+    ELSE CASE p \in {"interface", "value"} -> [ok |-> "yes", echo |-> IF IsFn(arg) THEN Str(sFn) ELSE arg]
+           [] p = "float64" -> IF IsNum(arg) THEN [ok |-> "yes", echo |-> arg] ELSE [ok |-> "no"]
+           \* numbers convert to any numeric kind; what a fraction or an out-of-range value becomes is open
+           [] p = "int" -> IF ~IsNum(arg) THEN [ok |-> "no"] ELSE IF IsInteger(arg) THEN [ok |-> "yes", echo |-> arg] ELSE [ok |-> "open"]
+           [] p = "uint8" -> IF ~IsNum(arg) THEN [ok |-> "no"] ELSE IF IsInteger(arg) /\ arg.n >= 0 /\ arg.n <= 255 THEN [ok |-> "yes", echo |-> arg] ELSE [ok |-> "open"]
+           [] p = "string" -> IF IsStr(arg) THEN [ok |-> "yes", echo |-> arg] ELSE [ok |-> "no"]      \* nothing else converts to string
+           [] p = "bytes" -> IF IsStr(arg) THEN [ok |-> "yes", echo |-> Str(sBytes \o arg.s)] ELSE [ok |-> "no"]
+           [] p = "bool" -> IF IsBool(arg) THEN [ok |-> "yes", echo |-> arg] ELSE [ok |-> "no"]
+           [] p = "slice" -> IF IsArr(arg) THEN [ok |-> "yes", echo |-> arg] ELSE [ok |-> "no"]
+           [] p = "map" -> IF IsObj(arg) THEN [ok |-> "yes", echo |-> arg] ELSE [ok |-> "no"]
+           [] p = "callable" -> IF IsFn(arg) THEN [ok |-> "yes", echo |-> Str(sFn)] ELSE [ok |-> "no"]
+           [] OTHER -> [ok |-> "open"]
+
+\* E2: argument count rule and conversion; cx.site is the context item of the call site
+ExtCall(fn, args0, cx) ==
+    LET st == cx.st
+        ps == fn.ps   np == Len(ps)   argc == Len(args0)
+        pre == (fn.ch = "count0" /\ argc = 0) \/ (fn.ch = "count1" /\ argc = 1)
+    IN
+    IF pre /\ ~cx.hasSite THEN Top("context item through an indirect call is open", st)
+    ELSE LET a1 == IF pre THEN <<cx.site>> \o args0 ELSE args0 IN
+    IF fn.uh = "undef0" /\ Len(a1) >= 1 /\ IsUndef(a1[1]) THEN Ok(Undef, st)
+    ELSE LET fillN == LET cand == {k \in 0..(IF np > Len(a1) THEN np - Len(a1) ELSE 0) : \A i \in Len(a1) + 1..Len(a1) + k : IsOptParam(ps[i])}
+                      IN  CHOOSE k \in cand : \A k2 \in cand : k2 <= k
+             a2 == a1 \o [i \in 1..fillN |-> Undef]
+             n2 == Len(a2)
+    IN
+    IF (fn.variadic /\ n2 < np - 1) \/ (~fn.variadic /\ n2 # np) THEN ErArg("ArgCount", argc, st)
+    ELSE LET parOf(i) == IF i <= np THEN ps[i] ELSE ps[np]
+             cs == [i \in 1..n2 |-> Convert(a2[i], parOf(i))]
+             bad == {i \in 1..n2 : cs[i].ok = "no"}
+             open == {i \in 1..n2 : cs[i].ok = "open"}
+             firstBad == IF bad = {} THEN 0 ELSE CHOOSE i \in bad : \A j \in bad : i <= j
+    IN
+    IF open # {} /\ (bad = {} \/ (\E i \in open : i < firstBad)) THEN Top("conversion left open by the statement", st)
+    ELSE IF bad # {} THEN ErArg("ArgType", firstBad, st)
+    ELSE LET fixedN == IF fn.variadic THEN np - 1 ELSE np
+             echoes == [i \in 1..fixedN |-> cs[i].echo] \o (IF fn.variadic THEN <<Arr([i \in 1..(n2 - fixedN) |-> cs[fixedN + i].echo])>> ELSE <<>>)
+         IN  CASE fn.res \in {"echo", "two"} -> Ok(Arr(echoes), st)
+               [] fn.res = "err" -> Er("Any", st)                  \* a non-nil error return becomes Eval's error
+               [] fn.res = "undef" -> Ok(Undef, st)                \* jtypes.ErrUndefined: no value
+               [] fn.res = "const" -> Ok(fn.ret, st)               \* a function that returns a fixed value (registry histories)
+
 \* ---- calls (C12) ----
 
 \* S3 for typed lambdas: returns [x |-> "ok", rs |-> args'] or an argument error
@@ -465,6 +531,7 @@ Call(fn, args, cx) ==
                ELSE Call(fn.pf, A.rs, [st |-> A.st, site |-> fn.c, hasSite |-> FALSE])
       [] fn.k = "chain" -> CallSeq(fn.fns, 1, IF args = <<>> THEN Undef ELSE args[1], st)
       [] fn.k = "builtin" -> CallBuiltin(fn.nm, args, cx.site, cx)
+      [] fn.k = "ext" -> ExtCall(fn, args, cx)
       \* R4: a regex literal applied to a string: the first match object, whose `next` enumerates the rest
       [] fn.k = "regex" ->
            IF args = <<>> \/ ~IsStr(args[1]) THEN Ok(Undef, st)
